@@ -22,7 +22,7 @@ def run(ctx: Ctx) -> int:
         "gtxns offsets and absolute indices over all uint64, intc index beyond the constant block, dig/cover/popn depths 0..255, scratch slots; TypeEnum / OnCompletion / "
         "ApplicationID constants over all uint64 at kernel level (the whole TxnType analysis does not finish under the tracer); index classification for 0..255. Outside: crashes "
         "that depend on the layout and everything about the CLI, printers and files (no symbolic dimension) - their graph-level causes are checked under C04/C05/C12",
-        [D.run_analysis, TxnType._get_asserted_transaction_types, SB.construct_stack_ast.__wrapped__],
+        [lambda: D.run_analysis, lambda: TxnType._get_asserted_transaction_types, lambda: SB.construct_stack_ast.__wrapped__],
         {"immediates": "uint64 / 0..255"},
         ["programs are one-block functions; larger shapes are covered by the S/G checks, whose workers report any tealer exception as a harness error"],
         timeout_quick=200, timeout_thorough=600,
